@@ -335,6 +335,14 @@ def rule_r3(ctx):
                 expanded.append(x)
         for x in expanded:
             t = norm(x)
+            if isinstance(x, (ast.Name, ast.Attribute)) and not (isinstance(x, ast.Name) and x.id == data):
+                # a module / class constant standing for the bytes
+                try:
+                    cv = p.fold(x, f.module)
+                except NotConst:
+                    cv = None
+                if isinstance(cv, bytes):
+                    x = ast.copy_location(ast.Constant(value=cv), x)
             if isinstance(x, ast.Constant) and x.value == b"\r\n":
                 shape.append("CRLF")
             elif isinstance(x, ast.Name) and x.id == data:
